@@ -731,14 +731,17 @@ namespace occa {
 
       bool finishedComment = false;
       while (!finishedComment && *fp.start != '\0') {
-        skipTo('*');
-        if (*fp.start == '*') {
-          ++fp.start;
-          if (*fp.start == '/') {
-            ++fp.start;
-            finishedComment = true;
-          }
+        // A backslash does not escape anything inside a comment: /* \*/ is complete
+        if ((fp.start[0] == '*') && (fp.start[1] == '/')) {
+          fp.start += 2;
+          finishedComment = true;
+          continue;
         }
+        if (*fp.start == '\n') {
+          fp.lineStart = fp.start + 1;
+          ++fp.line;
+        }
+        ++fp.start;
       }
 
       const std::string comment = str();
